@@ -86,6 +86,16 @@ PROPS = {
         "components": {"real": ["pkg/scan/socks5 (instrumented)"], "stub": ["TCP connection and server (simnet)", "scheduler, clock"]},
         "assumptions": ASSUME_COMMON + ["simnet models TCP close/reset/buffering (first write after peer close succeeds; reset may discard queued bytes)"],
     },
+    "C11": {
+        "level": "exploration",
+        "rule": "composition: one simulated `sx arp --json [--live]` execution against generated ARP speakers (alive by hash, replies with ordinary / broadcast / zero / multicast / vendor MACs, hosts answering twice with different MACs, unsolicited ARP requests and replies, ARP frames with hardware size 0..8 / protocol size 0..16 / other hardware types laid out to pass the capture filter), whose stdout is fed unchanged as stdin or --arp-cache of a second simulated execution (tcp / tcp syn / tcp fin / udp / icmp; subnet, pairs, addresses-x-ports, address list; targets mixing cached, uncached, remote and excluded addresses; gateway MAC from --gwmac, from the cache, or absent); also handmade cache files (16-byte spellings, upper-case / dashed MACs, extra and nested fields, reordered keys, duplicates); oracle = the loader accepts every printed line; every probe's Ethernet destination is the MAC of the last line for its own destination address, else the gateway MAC, else there is no probe but exactly one error naming that address; library: 2..8 clients x 4..40 Put/Get/Delete operations on <= 3 keys of one real arp.Cache (its RWMutex scheduled), history stamped with a global event counter and checked with porcupine against a map; distinct = (variant, gateway mode, command, mode, #lines, trace hashes)",
+        "suites": [{"name": "C11-compose", "quick": 1600, "thorough": 40000, "budget_quick": 100, "budget_thorough": 1500},
+                   {"name": "C11-cachelin", "quick": 4000, "thorough": 100000, "budget_quick": 60, "budget_thorough": 600}],
+        "expect_probes": ["cache-entry-used", "no-mac-error", "overlapping-operations"],
+        "components": COMPONENTS_CMD,
+        "assumptions": ASSUME_COMMON + ["the property's cache line format is read as {ip: IPv4 address in any spelling, mac: 6-byte hardware address}",
+                                        "data races on the cache map are not observable under a single-runner scheduler; the porcupine check decides the sequential semantics under interleaved critical sections only"],
+    },
     "C12": {
         "level": "fault_enumeration",
         "rule": "case = one full command execution (packet scans incl. chunked/VPN/rate-limited, socks scans with 1..100 workers and stalled/flooding/black-holed endpoints) with NIC stalls, NIC error bursts (> 100 errors), slow stdout, duplicated/unsolicited traffic, and Ctrl-C delivered at scheduling step k or at a virtual instant; thorough: 24 base executions x every k in 1..1500 (blocks of run indexes share scenario and schedule), the rest k / t drawn; oracle = no panic, command returns, return within a sound bound after Ctrl-C (items taken after the cancel x (stall + limiter interval)), <= 64 probes after Ctrl-C, stdout = complete records; distinct = (command, cancel step/time, trace hash); non-trivial = Ctrl-C fired before normal completion",
@@ -157,6 +167,8 @@ for _p in PENDING:
         NOT_APPLICABLE.append({"property_id": _p, "reason": "check under construction in this session - not claimed yet (planned in DESIGN.md section 4)"})
 
 MANIFEST_TEXT = {
+    "C11": {"text": "Two full commands are composed in simulation: the stdout of `sx arp --json` (against ARP speakers with odd, changing and hostile frames) becomes the ARP cache of an IP-level scan whose every probe's Ethernet destination is compared with the cache derived from the printed lines (last line wins, else gateway MAC, else exactly one error). Handmade cache files cover spellings and extra fields. A porcupine check decides Put/Get/Delete histories of concurrent clients on the real cache.",
+            "note": "Sampled; data races as such are outside a single-runner simulation."},
     "C19": {"text": "The real live request generator runs under the seeded scheduler between a simulated delegate (fresh permutation per pass, passes that fail to start) and a pausing consumer, with the cancel at a drawn instant; the recorded request history is checked for pass structure, spacing (exact on the virtual clock), bounded liveness and termination. `sx arp --live` is checked the same way on the simulated wire.",
             "note": "Sampled sizes, intervals, failure positions and cancel instants."},
     "C13": {"text": "Full commands read generated target files with bad lines at drawn positions under every stack of optional stages (exclusion filter, ARP-cache resolver with/without gateway MAC, VPN, application scan). The frames / dials and the error records (at the zap core) are compared with a line-by-line reference model that allows stopping at a bad line or continuing as if it were absent.",
